@@ -461,3 +461,43 @@ func H_C13_quoted_ints()       { vC13Quoted("ints", "'", "'", 3) }
 func H_C13T_quoted_datetime()  { vC13Quoted("datetime", "'", "'", 6) }
 func H_C13T_quoted_re()        { vC13Quoted("re", "'", "'", 5) }
 func H_C13T_quoted_in()        { vC13Quoted("in", "(", ")", 5) }
+
+// the same (possibly malformed) rule used twice in one process: caches of parsed rules must not turn
+// the second use into a crash
+func vC13Twice(key string, max int) {
+	tail := vndString("tail", max)
+	vAssume(vNoByte(tail, ','))
+	text := key + tail
+	vC13Call("first use "+key, func() { _ = Var("a1", text) })
+	vC13Call("second use "+key, func() { _ = Var("a1", text) })
+	vC13Call("third use through Struct "+key, func() {
+		_ = Struct([]vC13Fields{{S: "a1"}, {S: "b2"}}, NewRule().Set("S", text))
+	})
+	vReach("end")
+}
+
+func H_C13_twice_re()       { vC13Twice("re='", 3) }
+func H_C13_twice_in()       { vC13Twice("in=(", 3) }
+func H_C13_twice_datetime() { vC13Twice("datetime='", 3) }
+func H_C13_twice_to()       { vC13Twice("to=", 3) }
+func H_C13_twice_ints()     { vC13Twice("ints=", 2) }
+
+// botheq / either members of uncomparable dynamic types
+type vC13Unc struct {
+	A []int          `valid:"botheq=1"`
+	B []int          `valid:"botheq=1"`
+	M map[string]int `valid:"botheq=2,either=3"`
+	N map[string]int `valid:"botheq=2,either=3"`
+	S vC13Fields     `valid:"botheq=4"`
+	T vC13Fields     `valid:"botheq=4"`
+}
+
+func H_C13_uncomparable_groups() {
+	o := &vC13Unc{A: []int{1, vndInt("a")}, B: []int{1, 2}, M: map[string]int{"k": 1}, N: map[string]int{"k": vndInt("n")}, S: vC13Fields{L: []string{"x"}}, T: vC13Fields{L: []string{"x"}}}
+	vC13Call("Struct with groups of slices, maps and structs holding slices", func() { _ = Struct(o) })
+	vC13Call("Map with groups of uncomparable values", func() {
+		_ = Map(map[string]interface{}{"a": []int{1}, "b": []int{1}, "c": map[string]int{"x": 1}, "d": map[string]int{"x": 1}},
+			NewRule().Set("a", "botheq=1").Set("b", "botheq=1").Set("c", "botheq=2,either=3").Set("d", "botheq=2,either=3"))
+	})
+	vReach("end")
+}
